@@ -127,6 +127,10 @@ func (t *c05Tpt) DialWithUpdates(ctx context.Context, a ma.Multiaddr, p peer.ID,
 						return nil, ctx.Err()
 					}
 				}
+			case 5:
+				// a connection authenticated as ANOTHER peer (stale address, or a transport that
+				// does not enforce the expected identity)
+				return &c05Conn{local: h.s.local, remote: h.other, raddr: a, tpt: t, closed: make(chan struct{})}, nil
 			default:
 				return &c05Conn{local: h.s.local, remote: p, raddr: a, tpt: t, closed: make(chan struct{})}, nil
 			}
@@ -151,6 +155,9 @@ func (t *c05Tpt) Protocols() []int {
 	return []int{ma.P_TCP, ma.P_QUIC_V1, ma.P_WS, ma.P_WEBTRANSPORT}
 }
 func (t *c05Tpt) Proxy() bool { return t.proxy }
+
+// like the circuit transport: the address of the relay is resolved by the transport itself
+func (t *c05Tpt) SkipResolve(context.Context, ma.Multiaddr) bool { return t.proxy }
 
 // ---- gater ---------------------------------------------------------------------------
 type c05Gater struct {
@@ -202,6 +209,9 @@ var c05WKinds = []string{
 	"/ip4/0.0.0.0/tcp/%d",                     // unspecified: filtered out
 	"/ip4/1.2.3.4/tcp/%d/ws",                  // 10: websocket on the ip of kind 0 (same ip:port when given its port)
 	"/ip4/1.2.3.4/udp/%d/quic-v1/webtransport", // 11: webtransport on the ip of kind 2
+	"/dns4/relay.c05.test/tcp/%d/wss/p2p/" + c05RelayID + "/p2p-circuit",                      // 12: relay named by DNS, secure websocket
+	"/dns4/relay.c05.test/udp/%d/quic-v1/webtransport/p2p/" + c05RelayID + "/p2p-circuit", // 13: relay named by DNS, webtransport
+	"/dns4/relay.c05.test/tcp/%d/p2p/" + c05RelayID + "/p2p-circuit",                          // 14: relay named by DNS, tcp
 }
 
 // the class of an address as filterLowPriorityAddresses sees it: 4 webtransport, 3 quic-v1,
@@ -225,6 +235,7 @@ type c05W struct {
 	s      *Swarm
 	w      *dialWorker
 	p      peer.ID
+	other  peer.ID // some other peer: what a misdirected dial ends up connected to
 	reqch  chan dialRequest
 	adctx  context.Context
 	cancel context.CancelFunc
@@ -302,6 +313,8 @@ func newC05Swarm() *c05W {
 	}
 	_, rp, _ := ic.GenerateEd25519Key(rand.Reader)
 	h.p, _ = peer.IDFromPublicKey(rp)
+	_, op, _ := ic.GenerateEd25519Key(rand.Reader)
+	h.other, _ = peer.IDFromPublicKey(op)
 	return h
 }
 
